@@ -3,6 +3,7 @@ The programs the translator generated from `channel/mod.rs` (`Generated/ConduitS
 hand-written steps of `Model/Conduit.lean`, for every state and every argument.
 -/
 import SwimVerif.Generated.ConduitSrc
+import SwimVerif.Generated.CoopSrc
 
 set_option linter.unusedSimpArgs false
 namespace SwimVerif.ConduitProg
@@ -104,5 +105,26 @@ theorem lock_discipline (s : St) (op : Op) :
     simp only [runOp, runDropW, writer_drop]
     rcases hw : s.waker with _ | (_|_) <;> simp_all [exec, enterDrop, evalCond, touch]
   | setBudget n => simp [runOp, enter]
+
+/-! ### `coop/mod.rs` -/
+open SwimVerif.Generated.CoopSrc
+
+/-- the translated `consume_budget` is `budgetStep`: new cell, `Ready` or `Pending`, and it wakes the polling task
+itself exactly when it answers `Pending` -/
+theorem consume_budget_eq (c : Option Nat) :
+    (execB consume_budget { cell := c }).cell = (budgetStep c).1 ∧
+    (execB consume_budget { cell := c }).ret = some (if (budgetStep c).2 then .ready else .pending) ∧
+    (execB consume_budget { cell := c }).wokeSelf = !(budgetStep c).2 := by
+  cases c with
+  | none => simp [consume_budget, execB, budgetStep]
+  | some b =>
+    by_cases h : b - 1 = 0 <;> simp [consume_budget, execB, budgetStep, h]
+
+/-- the translated `track_progress` is `trackBudget` on a `Pending` poll and the identity otherwise; it returns
+the poll it was given -/
+theorem track_progress_eq (c : Option Nat) (p : Bool) :
+    (execB track_progress { cell := c, pollPending := p }).cell = (if p then trackBudget c else c) ∧
+    (execB track_progress { cell := c, pollPending := p }).ret = some .same := by
+  cases c <;> cases p <;> simp [track_progress, execB, trackBudget]
 
 end SwimVerif.ConduitProg
